@@ -8,8 +8,9 @@ fn any_header() -> ([u8; 28], MessageHeader) {
     let b: [u8; 28] = kani::any();
     let h = match decode_message_header(&mut &b[..]) {
         Ok(h) => h,
-        Err(_) => {
+        Err(e) => {
             // 28 bytes always suffice for the 28-byte header
+            core::mem::forget(e);
             panic!("C10: a full 28-byte header failed to decode");
         }
     };
